@@ -696,6 +696,122 @@ func runLateSweep(sc sweepScenario) sweepResult {
 	return res
 }
 
+// runSizeEvictRace (C05, C04): the SIZE policy evicts an entry whose deadline is reached exactly now (expired for readers, not yet
+// due for the timer wheel) while a reader that sampled the clock earlier stores an extended deadline - between the eviction
+// callback and the removal in the table (the sweeper is parked at the first hook of the table computation, "cp.ldTable").
+// Whatever the cache decides, afterwards the orderings enumerate exactly the entries iteration yields and the bound holds.
+func runSizeEvictRace(sc sweepScenario) sweepResult {
+	res := sweepResult{T: "sweep", Sc: sc, TickNs: 1 << 30, NoPressure: 0}
+	clk := &stallClock{never: make(chan time.Time), stalled: make(chan struct{}), resume: make(chan struct{})}
+	clk.now.Store(int64(5) << 30)
+	calc := &parkCalc{ttl: time.Duration(sc.TTL), parked: make(chan struct{}), resume: make(chan struct{})}
+	var mu sync.Mutex
+	o := &Options[int, int]{
+		Clock:            clk,
+		ExpiryCalculator: calc,
+		MaximumSize:      10,
+		Executor:         func(fn func()) { fn() },
+		OnDeletion: func(e DeletionEvent[int, int]) {
+			if e.Key != 1 {
+				return
+			}
+			mu.Lock()
+			switch e.Cause {
+			case CauseExpiration:
+				res.Expired++
+			case CauseOverflow:
+				res.Overflow++
+				res.Other++
+			default:
+				res.Other++
+			}
+			mu.Unlock()
+		},
+	}
+	c := Must(o)
+	defer c.StopAllGoroutines()
+	c.Set(1, 11)
+	c.CleanUp()
+	clk.now.Add(sc.TTL - 1000) // shortly before the deadline
+	rdone := make(chan struct{})
+	go func() {
+		defer close(rdone)
+		calc.gid.Store(verifkit.GoID())
+		calc.armed.Store(true)
+		c.GetIfPresent(1)
+	}()
+	select {
+	case <-calc.parked:
+	case <-time.After(3 * time.Second):
+		res.Hang = 1
+		return res
+	}
+	clk.now.Add(1000) // exactly the deadline
+	gate := make(chan struct{})
+	atGate := make(chan struct{})
+	var sweeper atomic.Uint64
+	var inEvict atomic.Bool
+	var once sync.Once
+	verifhookInstall(func(id string, v uint64) {
+		if verifkit.GoID() != sweeper.Load() {
+			return
+		}
+		if id == "ev.beforeDelete" {
+			inEvict.Store(true)
+		}
+		if id == "cp.ldTable" && inEvict.Load() {
+			once.Do(func() {
+				close(atGate)
+				<-gate
+			})
+		}
+	})
+	defer verifhookInstall(nil)
+	swept := make(chan struct{})
+	go func() {
+		defer close(swept)
+		sweeper.Store(verifkit.GoID())
+		c.SetMaximum(0) // every entry must go for size
+	}()
+	select {
+	case <-atGate:
+		res.Gated = 1
+	case <-swept:
+	case <-time.After(3 * time.Second):
+		res.Hang = 1
+		close(gate)
+		return res
+	}
+	calc.resume <- struct{}{}
+	select {
+	case <-rdone:
+	case <-time.After(3 * time.Second):
+		res.Hang = 1
+		close(gate)
+		return res
+	}
+	close(gate)
+	select {
+	case <-swept:
+	case <-time.After(3 * time.Second):
+		res.Hang = 1
+		return res
+	}
+	verifhookInstall(nil)
+	c.CleanUp()
+	res.EstMid = c.EstimatedSize()
+	for range c.All() {
+		res.Live++
+	}
+	for range c.Coldest() {
+		res.Cold++
+	}
+	res.Est = res.Live // (judged by the bound: maximum 0)
+	mu.Lock()
+	defer mu.Unlock()
+	return res
+}
+
 type sweepResult struct {
 	T       string        `json:"t"`
 	Sc      sweepScenario `json:"sc"`
@@ -823,6 +939,10 @@ func TestVerifSweep(t *testing.T) {
 	defer w.Flush()
 	enc := json.NewEncoder(w)
 	for _, sc := range scs {
+		if sc.Op == "gate.size" {
+			_ = enc.Encode(runSizeEvictRace(sc))
+			continue
+		}
 		if len(sc.Op) > 5 && sc.Op[:5] == "late." {
 			_ = enc.Encode(runLateSweep(sc))
 			continue
